@@ -77,11 +77,11 @@ theorem merge_completes_iff {α} (es : List (Ev (HV α))) :
     es (hoInit {}) (hoInit_WF _) (by simp [maRule, maAbs, hoInit])
   simpa [maAbs, hoInit] using h
 
-/-- **merge_completes_maxc_partial** (merge(max_concurrent), concat_map). If the output completes then, in the final state,
+/-- **merge_completes_maxc_state** (merge(max_concurrent), concat_map). If the output completes then, in the final state,
 the outer has completed (`is_stopped`), `active_count` is 0, no inner subscription is live and (max_concurrent ≥ 1) the
-queue is empty: every arrived inner was started and has been closed.  PARTIAL: only this direction, and stated on the
-operator's counters rather than on the delivered notifications (the full `iff` is proved for merge_all above). -/
-theorem merge_completes_maxc_partial {α} (maxc : Nat) (hm : 1 ≤ maxc) (es : List (Ev (HV α)))
+queue is empty: every arrived inner was started and has been closed (state-level reading; the full iff on the delivered
+notifications is `merge_completes_iff_maxc`). -/
+theorem merge_completes_maxc_state {α} (maxc : Nat) (hm : 1 ≤ maxc) (es : List (Ev (HV α)))
     (hc : Notif.completed ∈ emits (run (mcM (α := α) maxc) (hoInit {}) es)) :
     let st := final (mcM (α := α) maxc) (hoInit {}) es
     st.s.stopped = true ∧ st.s.active = 0 ∧ st.p.live.filter (· != 0) = [] ∧ st.s.queue = [] := by
@@ -121,6 +121,52 @@ theorem merge_completes_maxc_partial {α} (maxc : Nat) (hm : 1 ≤ maxc) (es : L
       have := hinv.qfull (by simp [hq])
       rw [hr.2] at this; omega
 
+/-- **merge_completes_iff_maxc** (merge(max_concurrent ≥ 1), concat_map) — the full iff on the delivered notifications. Count the
+arrivals, the delivered inner completions and note the outer's completion (`mcTStep`). The output completes if and only if, at
+the end of the delivered notifications, the outer has completed and as many inner completions were delivered as inners
+arrived (`mcCountRule`; a subscription completes at most once, so this is "every arrived inner — started at once or from the
+queue — has completed"), in the step that makes it true. `mcT_counts` spells the counters out: `nArr` is the number of
+delivered outer elements, `outerDone` is `(0, completed) ∈ accepted`. -/
+theorem merge_completes_iff_maxc {α} (maxc : Nat) (hm : 1 ≤ maxc) (es : List (Ev (HV α))) :
+    Notif.completed ∈ emits (run (mcM (α := α) maxc) (hoInit {}) es)
+      ↔ mcCountRule ((accepted (mcM (α := α) maxc) (hoInit {}) es).foldl mcTStep {}) := by
+  have habs : ∀ (st : St McSt) (e : Ev (HV α)), McInv maxc st →
+      (step (mcM (α := α) maxc) st e).1.s
+        = (accOne st e).foldl (fun s kn => ((mcM (α := α) maxc).handler s kn.1 kn.2).1) st.s := by
+    intro st e _
+    cases e with
+    | tick => simp [step, mcM, accOne]
+    | dispose => simp [step, accOne]
+    | src k n =>
+      by_cases hk : k ∈ st.p.live
+      · simp [step_src_state _ _ _ _ hk, accOne, hk]
+      · simp [step_src_not_live _ _ _ _ hk, accOne, hk]
+  have hrule := rule_run (mcM (α := α) maxc) (McInv maxc) id
+    (fun s kn => ((mcM (α := α) maxc).handler s kn.1 kn.2).1) mcRule
+    (fun st e h => mc_step_inv maxc st e h) (fun _ h => h.wf) habs
+    (fun st k n _ _ hr => mc_rule_step maxc st.s k n hr)
+    (fun st _ => by simp [step, mcM, Plumb.acts])
+    es (hoInit {}) (mc_init_inv maxc) (by simp [mcRule, hoInit])
+  have hfin := final_abs (mcM (α := α) maxc) (McInv maxc) id
+    (fun s kn => ((mcM (α := α) maxc).handler s kn.1 kn.2).1)
+    (fun st e h => mc_step_inv maxc st e h) habs es (hoInit {}) (mc_init_inv maxc)
+  have hbal := mc_run_bal (α := α) maxc es (hoInit {}) {} (mc_init_inv maxc) ⟨rfl, rfl⟩
+  simp only [id] at hrule hfin
+  rw [hrule, ← hfin.1]
+  have hb := hbal.1
+  have hinv := hbal.2
+  constructor
+  · intro hr
+    refine ⟨by rw [← hb.stp]; exact hr.1, ?_⟩
+    have hq : (final (mcM (α := α) maxc) (hoInit {}) es).s.queue = [] := by
+      cases hq : (final (mcM (α := α) maxc) (hoInit {}) es).s.queue with
+      | nil => rfl
+      | cons a as => have := hinv.qfull (by simp [hq]); rw [hr.2] at this; omega
+    have := hb.bal; rw [hr.2, hq] at this; simpa using this
+  · intro hr
+    refine ⟨by rw [hb.stp]; exact hr.1, ?_⟩
+    have := hb.bal; rw [hr.2] at this; omega
+
 /-- **concat_map_ordered** (max_concurrent = 1). In every reachable state the only inner subscription that can be live is the
 MOST RECENTLY SUBSCRIBED one: an inner is subscribed only when every earlier inner has been closed. Together with
 `merge_queue_fifo` (inners are subscribed in arrival order) and `merge_per_inner_order_maxc` (the output is the
@@ -141,6 +187,24 @@ theorem concat_map_ordered {α} (es : List (Ev (HV α))) (k : Nat)
   match l, hle, hmem with
   | [a], _, hmem => simp at hmem; rw [hmem]
   | a :: b :: r, hle, _ => simp at hle
+
+/-- **concat_map_blocks** — the explicit block decomposition for max_concurrent = 1 (concat_map), every event list: there is a list
+of blocks `(inner id, elements)`, one per SUBSCRIBED inner and in subscription order (= arrival order, `merge_queue_fifo`),
+such that the sequence of delivered inner elements tagged with their inner is the blocks laid out one after the other, and
+the output is exactly the concatenation of the blocks' elements: first everything of the first inner, then everything of the
+second, … -/
+theorem concat_map_blocks {α} (es : List (Ev (HV α))) :
+    ∃ bs : List (Nat × List α),
+      bs.map (·.1) = subsOf (run (mcM (α := α) 1) (hoInit {}) es) ∧
+      (accepted (mcM (α := α) 1) (hoInit {}) es).filterMap innerKV = expandBlocks bs ∧
+      outVals (run (mcM (α := α) 1) (hoInit {}) es) = (bs.map (·.2)).flatten := by
+  have h := b_run (α := α) es [] [] (hoInit {})
+    ⟨⟨mc_init_inv 1, by intro j hj hj0; simp [hoInit] at hj; exact absurd hj hj0⟩, ⟨[], rfl, rfl⟩⟩
+  simp only [List.nil_append] at h
+  obtain ⟨bs, hb1, hb2⟩ := h.blocks
+  refine ⟨bs, hb1, hb2, ?_⟩
+  rw [merge_per_inner_order_maxc, innerVal_eq_kv, hb2]
+  simp [expandBlocks, List.map_flatMap, List.flatMap_def, Function.comp_def]
 
 /-- non-vacuity: max_concurrent = 1, three inners; the second and third wait, start in arrival order; an inner error ends it -/
 example :
